@@ -25,8 +25,8 @@ import (
 // topic and payload; pull-only requests publish nothing.
 func TestC18Notify(t *testing.T) {
 	col := stats.New("C18", t.Name(),
-		"generated client/server histories (C05/C06 generators incl. bursts, empty pushes, several keys per message) against the real server whose notifier talks to an in-process MQTT broker that records every publish; after every request and the end of its background work: "+
-			"the number of new publishes equals the number of datatypes for which the request stored >=1 operation (0 for pull-only syncs), each on topic <collection>/<key> with payload {CUID = pusher, DUID = the datatype, sseq = new end of its log}; "+
+		"generated client/server histories (C05/C06 generators incl. bursts, empty pushes, several keys per message) against the real server whose notifier talks to an in-process MQTT broker that records every publish; publishes are matched by content: every request that stored >=1 operation of a datatype expects exactly one publish {CUID = pusher, DUID = the datatype, sseq = new end of its log} on topic <collection>/<key> (it must arrive within 30 s; the server publishes with QoS 0 after the response), "+
+			"every publish must consume one such expectation - a publish by a pull-only sync, a duplicate, or a wrong end of log has none; "+
 			"non-trivial = the history mixes pushing and pull-only syncs of >=2 clients; distinct = hash of the action sequence")
 	checkProp(t, "C18", col, func(c *caseCtx) {
 		rt := c.rt
@@ -60,6 +60,46 @@ func TestC18Notify(t *testing.T) {
 			}
 			return ""
 		}
+		// The server publishes with QoS 0 from its post-response goroutine: the broker may see a publish
+		// some time after the request returned. Publishes are therefore matched by content, not by the
+		// moment they arrive: every storing request adds (datatype, new end of log) to the expected set,
+		// every publish must take exactly one expected entry (anything else - pull-only syncs that publish,
+		// duplicates, wrong end of log - names an entry that is not there), and expected entries must
+		// arrive within a generous deadline.
+		type expect struct {
+			cuid, topic, by string
+		}
+		expected := map[string]expect{} // "duid:sseq" -> who / where
+		consumed := 0
+		drain := func(deadline time.Duration) {
+			dl := time.Now().Add(deadline)
+			for {
+				pubs := w.env.MQTT.Publishes()
+				for ; consumed < len(pubs); consumed++ {
+					p := pubs[consumed]
+					var n model.Notification
+					if err := json.Unmarshal(p.Payload, &n); err != nil {
+						c.failf("notification payload is not JSON: %q", p.Payload)
+					}
+					key := fmt.Sprintf("%s:%d", n.DUID, n.Sseq)
+					e, ok := expected[key]
+					if !ok {
+						c.failf("a notification {datatype %s, sseq %d, cuid %s} on topic %q was published although no request stored operations up to that end of the log (pull-only sync, duplicate, or wrong sseq); outstanding: %v", n.DUID, n.Sseq, n.CUID, p.Topic, expected)
+					}
+					if n.CUID != e.cuid {
+						c.failf("notification for %s carries CUID %s, the pusher (%s) is %s", key, n.CUID, e.by, e.cuid)
+					}
+					if p.Topic != e.topic {
+						c.failf("notification for %s published on topic %q, want %q", key, p.Topic, e.topic)
+					}
+					delete(expected, key)
+				}
+				if len(expected) == 0 || time.Now().After(dl) {
+					return
+				}
+				time.Sleep(200 * time.Microsecond)
+			}
+		}
 		run := func(a l1Action) {
 			c.j.add(a)
 			canon.WriteString(a.String() + ";")
@@ -70,48 +110,26 @@ func TestC18Notify(t *testing.T) {
 				return
 			}
 			cl := w.clients[a.C]
-			w.env.WaitBackground(3 * time.Second)
 			before := logLens()
-			npub := len(w.env.MQTT.Publishes())
 			if err := w.applyL1(a); err != nil {
 				c.failf("%s: %v", a, err)
 			}
-			w.env.WaitBackground(3 * time.Second)
 			after := logLens()
-			pubs := w.env.MQTT.Publishes()[npub:]
-			want := map[string]int64{} // duid -> new end
+			stored := 0
 			for duid, end := range after {
 				if end > before[duid] {
-					want[duid] = end
+					stored++
+					expected[fmt.Sprintf("%s:%d", duid, end)] = expect{cuid: cl.pc.CUID(), topic: w.col + "/" + keyOf(duid), by: a.String()}
 				}
 			}
-			if len(want) > 0 {
+			if stored > 0 {
 				pushing[a.C] = true
 			} else if len(cl.dts) > 0 {
 				pullOnly[a.C] = true
 			}
-			if len(pubs) != len(want) {
-				c.failf("%s stored operations for %d datatype(s) but %d notification(s) were published: %v", a, len(want), len(pubs), pubs)
-			}
-			for _, p := range pubs {
-				var n model.Notification
-				if err := json.Unmarshal(p.Payload, &n); err != nil {
-					c.failf("notification payload is not JSON: %q", p.Payload)
-				}
-				end, ok := want[n.DUID]
-				if !ok {
-					c.failf("a notification names datatype %s for which this request stored nothing", n.DUID)
-				}
-				if n.Sseq != uint64(end) {
-					c.failf("notification for %s carries sseq %d, the log now ends at %d", n.DUID, n.Sseq, end)
-				}
-				if n.CUID != cl.pc.CUID() {
-					c.failf("notification carries CUID %s, the pusher is %s", n.CUID, cl.pc.CUID())
-				}
-				if wantTopic := w.col + "/" + keyOf(n.DUID); p.Topic != wantTopic {
-					c.failf("notification published on topic %q, want %q", p.Topic, wantTopic)
-				}
-				delete(want, n.DUID)
+			drain(30 * time.Second)
+			if len(expected) > 0 {
+				c.failf("%s stored operations but these notifications were not published within 30 s: %v", a, expected)
 			}
 		}
 		for _, a := range genPrelude(rt, w, 3) {
@@ -125,6 +143,10 @@ func TestC18Notify(t *testing.T) {
 			}
 			run(a)
 		}
+		// trailing publishes (a pull-only last request that publishes) get some time to show up
+		w.env.WaitBackground(5 * time.Second)
+		time.Sleep(3 * time.Millisecond)
+		drain(0)
 		both := 0
 		for ci := range pushing {
 			if pullOnly[ci] {
@@ -151,6 +173,7 @@ type c18Workload struct {
 	Clients int      `json:"clients"`
 	Ops     []c18Op  `json:"ops"`
 	FwdMax  int      `json:"forward_delay_max_us"`
+	RPCMax  int      `json:"rpc_delay_max_us,omitempty"`
 	IDSeed  uint64   `json:"id_seed"`
 }
 
@@ -233,11 +256,18 @@ func c18Run(wl c18Workload) (quiescent bool, calls map[string]int, err error) {
 	k := w.keys[0]
 	calls = map[string]int{}
 	var cmu sync.Mutex
+	ncall := 0
 	w.env.SetGRPCHook(func(method string, req proto.Message) bool {
 		if m, ok := req.(*model.PushPullMessage); ok {
 			cmu.Lock()
 			calls[m.Cuid]++
+			ncall++
+			n := ncall
 			cmu.Unlock()
+			if wl.RPCMax > 0 {
+				// a slow network: requests stay in flight while further operations and notifications arrive
+				time.Sleep(time.Duration((n*104729)%(wl.RPCMax+1)) * time.Microsecond)
+			}
 		}
 		return false
 	})
@@ -377,6 +407,7 @@ func testC18Realtime(t *testing.T, kind sim.Kind) {
 	checkProp(t, "C18", col, func(c *caseCtx) {
 		rt := c.rt
 		wl := c18Workload{Kind: kind, Clients: rapid.IntRange(2, 4).Draw(rt, "clients"), FwdMax: rapid.SampledFrom([]int{0, 200, 2000}).Draw(rt, "fwd"),
+			RPCMax: rapid.SampledFrom([]int{0, 0, 1000, 10000}).Draw(rt, "rpcdelay"),
 			IDSeed: rapid.Uint64Range(1, 1<<40).Draw(rt, "idseed")}
 		n := rapid.IntRange(1, 25).Draw(rt, "ops")
 		issuers := map[int]bool{}
